@@ -10,7 +10,7 @@ from common import Ctx, driver_json
 import core_lib as cl
 
 PROPERTY = "C18"
-LEAN_MODULES = ["Proofs.C18", "Proofs.C18.Rerun"]
+LEAN_MODULES = ["Proofs.C18", "Proofs.C18.Rerun", "Proofs.C18.Periods"]
 DRIVERS = ["driver_core"]
 RULE = ("random bar grids (start minute 0..1300 of the day, interval 1/2/3/5/7/10/15/30/60 min, 3..90 bars) x 1..4 triggers per run drawn "
         "from every class of trigger.py with parameters placed relative to the grid (on a bar, between bars, before the first / after the "
